@@ -2,6 +2,8 @@ package main
 
 import (
 	"go/ast"
+	"go/token"
+	"strconv"
 	"strings"
 )
 
@@ -94,15 +96,195 @@ func shapeC12(pk map[string]*pkgInfo) []fact {
 	}
 	if px := pk["l4proxy"]; px != nil {
 		if fd := px.findFunc("Handler", "dialPeers"); fd != nil {
-			s := px.src(fd.Body)
-			get := strings.Index(s, "l4proxyprotocol.GetConn(down)")
-			wr := strings.Index(s, ".WriteTo(up)")
-			app := strings.Index(s, "upConns = append(upConns, up)")
-			out = append(out, fact{"l4proxy_dial_uses_getconn", "bool", b2s(get >= 0 && strings.Contains(s, "FromConn(downConn, false)")),
-				"dialPeers fills the PROXY header from l4proxyprotocol.GetConn(down) with outgoing=false"})
-			out = append(out, fact{"l4proxy_dial_header_before_append", "bool", b2s(wr >= 0 && app >= 0 && wr < app),
-				"dialPeers writes the PROXY header before the upstream connection joins upConns"})
+			a := &c12Flow{p: px}
+			a.visit(fd, nil, 0, 0)
+			// every FromConn call reachable from dialPeers takes l4proxyprotocol.GetConn(<the *layer4.Connection
+			// parameter of dialPeers>) and outgoing=false
+			uses := len(a.fromConn) > 0
+			for _, f := range a.fromConn {
+				if !(strings.HasPrefix(f.src, "getconn(param:") && strings.Contains(f.src, "layer4.Connection") && f.outgoing == "false") {
+					uses = false
+				}
+			}
+			// the freshly dialled connection is appended to a slice, and every WriteTo on that
+			// connection reachable from dialPeers (through helpers too) happens before that append
+			appendPos := token.NoPos
+			for _, ap := range a.appends {
+				if ap.val == "dial" && (appendPos == token.NoPos || ap.pos < appendPos) {
+					appendPos = ap.pos
+				}
+			}
+			before, n := appendPos != token.NoPos, 0
+			for _, w := range a.writeTo {
+				if w.dst != "dial" {
+					continue
+				}
+				n++
+				if !(w.pos < appendPos) {
+					before = false
+				}
+			}
+			out = append(out, fact{"l4proxy_dial_uses_getconn", "bool", b2s(uses),
+				"dialPeers (helpers of package l4proxy inlined) fills the PROXY header by FromConn(l4proxyprotocol.GetConn(<downstream connection>), false)"})
+			out = append(out, fact{"l4proxy_dial_header_before_append", "bool", b2s(before && n > 0),
+				"dialPeers (helpers inlined) writes the PROXY header to the freshly dialled connection before that connection joins the returned slice"})
 		}
 	}
 	return out
+}
+
+// ---------- a small flow analysis for dialPeers: same-package callees are analysed as if inlined
+// (two levels), identifiers are resolved to where their value comes from, local names do not matter
+
+type c12From struct{ src, outgoing string }
+type c12Write struct {
+	dst string
+	pos token.Pos
+}
+type c12Append struct {
+	val string
+	pos token.Pos
+}
+type c12Flow struct {
+	p        *pkgInfo
+	fromConn []c12From
+	writeTo  []c12Write
+	appends  []c12Append
+}
+
+func c12Params(fd *ast.FuncDecl) (names []string, types []ast.Expr) {
+	if fd.Type.Params == nil {
+		return
+	}
+	for _, f := range fd.Type.Params.List {
+		for _, n := range f.Names {
+			names = append(names, n.Name)
+			types = append(types, f.Type)
+		}
+	}
+	return
+}
+
+// resolve answers where the value of e comes from: "param:<i>:<type>" (a parameter of the
+// outermost function), "dial" (result of a ...Dial call), "getconn(<origin>)", or the source text
+func (a *c12Flow) resolve(fd *ast.FuncDecl, env map[string]string, e ast.Expr, fuel int) string {
+	if fuel <= 0 {
+		return "expr:" + a.p.src(e)
+	}
+	switch x := e.(type) {
+	case *ast.ParenExpr:
+		return a.resolve(fd, env, x.X, fuel-1)
+	case *ast.CallExpr:
+		if se, ok := x.Fun.(*ast.SelectorExpr); ok {
+			if se.Sel.Name == "GetConn" && a.p.src(se.X) == "l4proxyprotocol" && len(x.Args) == 1 {
+				return "getconn(" + a.resolve(fd, env, x.Args[0], fuel-1) + ")"
+			}
+			if se.Sel.Name == "Dial" {
+				return "dial"
+			}
+		}
+		return "call:" + a.p.src(e)
+	case *ast.Ident:
+		if env != nil {
+			if v, ok := env[x.Name]; ok {
+				return v
+			}
+		} else {
+			names, types := c12Params(fd)
+			for i, n := range names {
+				if n == x.Name {
+					return "param:" + strconv.Itoa(i) + ":" + a.p.src(types[i])
+				}
+			}
+		}
+		// assignments to the identifier inside fd: all of them must agree
+		found := ""
+		ast.Inspect(fd.Body, func(n ast.Node) bool {
+			as, ok := n.(*ast.AssignStmt)
+			if !ok {
+				return true
+			}
+			for i, l := range as.Lhs {
+				id, ok := l.(*ast.Ident)
+				if !ok || id.Name != x.Name {
+					continue
+				}
+				var rhs ast.Expr
+				if len(as.Rhs) == len(as.Lhs) {
+					rhs = as.Rhs[i]
+				} else if len(as.Rhs) == 1 && i == 0 {
+					rhs = as.Rhs[0] // v, err := f(...)
+				}
+				if rhs == nil {
+					continue
+				}
+				if o := a.resolve(fd, env, rhs, fuel-1); found == "" {
+					found = o
+				} else if found != o {
+					found = "mixed"
+				}
+			}
+			return true
+		})
+		if found != "" {
+			return found
+		}
+		return "ident:" + x.Name
+	}
+	return "expr:" + a.p.src(e)
+}
+
+func (a *c12Flow) visit(fd *ast.FuncDecl, env map[string]string, site token.Pos, depth int) {
+	recvName := ""
+	if fd.Recv != nil && len(fd.Recv.List) > 0 && len(fd.Recv.List[0].Names) > 0 {
+		recvName = fd.Recv.List[0].Names[0].Name
+	}
+	at := func(n ast.Node) token.Pos {
+		if site != token.NoPos {
+			return site
+		}
+		return n.Pos()
+	}
+	ast.Inspect(fd.Body, func(n ast.Node) bool {
+		ce, ok := n.(*ast.CallExpr)
+		if !ok {
+			return true
+		}
+		switch fn := ce.Fun.(type) {
+		case *ast.SelectorExpr:
+			switch {
+			case fn.Sel.Name == "FromConn" && len(ce.Args) == 2:
+				a.fromConn = append(a.fromConn, c12From{a.resolve(fd, env, ce.Args[0], 8), a.p.src(ce.Args[1])})
+			case fn.Sel.Name == "WriteTo" && len(ce.Args) == 1:
+				a.writeTo = append(a.writeTo, c12Write{a.resolve(fd, env, ce.Args[0], 8), at(ce)})
+			default:
+				// a method of the same receiver: analyse its body as if inlined
+				if id, ok := fn.X.(*ast.Ident); ok && recvName != "" && id.Name == recvName && depth < 2 {
+					if callee := a.p.findFunc(recvTypeName(fd), fn.Sel.Name); callee != nil && callee.Body != nil {
+						a.inline(fd, env, callee, ce, at(ce), depth)
+					}
+				}
+			}
+		case *ast.Ident:
+			if fn.Name == "append" && len(ce.Args) == 2 && depth == 0 {
+				a.appends = append(a.appends, c12Append{a.resolve(fd, env, ce.Args[1], 8), ce.Pos()})
+			} else if depth < 2 {
+				if callee := a.p.findFunc("", fn.Name); callee != nil && callee.Body != nil {
+					a.inline(fd, env, callee, ce, at(ce), depth)
+				}
+			}
+		}
+		return true
+	})
+}
+
+func (a *c12Flow) inline(fd *ast.FuncDecl, env map[string]string, callee *ast.FuncDecl, ce *ast.CallExpr, site token.Pos, depth int) {
+	names, _ := c12Params(callee)
+	env2 := map[string]string{}
+	for i, n := range names {
+		if i < len(ce.Args) {
+			env2[n] = a.resolve(fd, env, ce.Args[i], 8)
+		}
+	}
+	a.visit(callee, env2, site, depth+1)
 }
